@@ -73,6 +73,9 @@ namespace vg
       if(!any) return;
       c.tags = tagfn(start); c.set_op(opfn(start));
       c.count("forks");
+      // after two probes of this worker ran into the full CPU limit the tree is violating anyway: cut further ones short
+      static int cpu_limit_deaths = 0;
+      const unsigned cpu_lim = cpu_limit_deaths >= 2 ? std::min(cpu_seconds, 4u) : cpu_seconds;
       vh::ForkResult r = vh::run_forked([&] {
         for(int i = start; i < nsub; ++i)
         {
@@ -82,7 +85,8 @@ namespace vg
           try { fn(rep, i); }
           catch(std::exception& e) { rep.viol(opfn(i), "exception", vh::J().kv("what", e.what()).str()); }
         }
-      }, cpu_seconds);
+      }, cpu_lim);
+      if(!r.clean() && (r.sig == SIGXCPU || r.sig == SIGKILL)) ++cpu_limit_deaths;
       // replay the child's protocol lines in order
       int cur = -1; std::size_t pos = 0, cur_pos = 0;
       while(pos < r.err.size())
